@@ -188,7 +188,7 @@ type WireGen struct {
 	NowSec  int64
 	// Lits: command name -> literals its hand-written parser knows (subcommands)
 	Lits map[string][]string
-	// KeySeq, when set, is handed out in order by key() (the last one repeats): the first key
+	// KeySeq, when set, is handed out in order by key() (cyclically): the first key
 	// argument gets KeySeq[0], the second KeySeq[1], ...
 	KeySeq []string
 	keyPos int
@@ -266,10 +266,7 @@ func (g *WireGen) pick(n int) int        { return g.R.Intn(n) }
 func (g *WireGen) chance(p float64) bool { return g.R.Float64() < p }
 func (g *WireGen) key() string {
 	if len(g.KeySeq) > 0 {
-		k := g.KeySeq[len(g.KeySeq)-1]
-		if g.keyPos < len(g.KeySeq) {
-			k = g.KeySeq[g.keyPos]
-		}
+		k := g.KeySeq[g.keyPos%len(g.KeySeq)] // beyond the sequence: round again (distinct sources for multi-key commands)
 		g.keyPos++
 		return k
 	}
